@@ -62,6 +62,17 @@ def run(ctx: Ctx) -> int:
 	ctx.log(f'diamond graph: sound keys {dsound.distinct} states OK; replayed {dreplay["edges"]} edges ({dreplay["stats"].get("runs", 0)} real runs); {len(dreplay["failures"])} discrepancies')
 	seen = {v.key for v in violations}
 	violations += [v for v in collect(ctx, PROP, dreplay) if v.key not in seen]
+	# twins a -> {b, c}: the two imports are written from one family of contents, so two files can exchange their contents
+	wsound = tlc.run('MCTranp', 'TranpW_cache_sound.cfg', workers=16, timeout=900)
+	if not wsound.ok:
+		raise Machinery(f'TLC: the sound-key model violates a C05 clause on the twins graph: {wsound.out[-1500:]}')
+	twres = tlc.run('MCTranp', 'TranpW_cache_edges4.cfg' if quick else 'TranpW_cache_edges5.cfg', workers=1, timeout=900)
+	twedges = [json.loads(line) for line in twres.lines('EDGE ')]
+	twreplay = replay_edges('Twins', twedges)
+	twreplay['graph'] = 'Twins'
+	ctx.log(f'twins graph (contents exchanged between files): sound keys {wsound.distinct} states OK; replayed {twreplay["edges"]} edges ({twreplay["stats"].get("runs", 0)} real runs); {len(twreplay["failures"])} discrepancies')
+	seen = {v.key for v in violations}
+	violations += [v for v in collect(ctx, PROP, twreplay) if v.key not in seen]
 	# modification times that do not only grow (an edit may set a time the file had before), three different bodies
 	tsound = tlc.run('MCTranp', 'TranpT_cache_sound.cfg', workers=16, timeout=900)
 	if not tsound.ok:
@@ -69,7 +80,7 @@ def run(ctx: Ctx) -> int:
 	tpinned = tlc.run('MCTranp', 'TranpT_cache_pinned.cfg', workers=16, timeout=900)
 	if tpinned.ok:
 		raise Machinery('TLC: a tree cache keyed by modification time only should not be coherent when times return (vacuity guard)')
-	tres = tlc.run('MCTranp', 'TranpT_cache_edges5.cfg', workers=1, timeout=900)
+	tres = tlc.run('MCTranp', 'TranpT_cache_edges4.cfg' if quick else 'TranpT_cache_edges5.cfg', workers=1, timeout=900)
 	tedges = [json.loads(line) for line in tres.lines('EDGE ')]
 	treplay = replay_edges('Pair', tedges)
 	treplay['graph'] = 'Pair'
@@ -100,6 +111,8 @@ def run(ctx: Ctx) -> int:
 		'bounds': {'graph': 'chain a->b->c and diamond a->{b,c}->d', 'variants': 2, 'operations': 4 if quick else 5, 'damaged_files': 1},
 		'diamond_edges_replayed_on_impl': dreplay['edges'],
 		'diamond_real_runs': dreplay['stats'].get('runs', 0),
+		'twins_edges_replayed_on_impl': twreplay['edges'],
+		'twins_real_runs': twreplay['stats'].get('runs', 0),
 		'returning_mtime_edges_replayed_on_impl': treplay['edges'],
 		'random_walks_replayed': wreplay['jobs'],
 		'random_walk_length': wreplay['longest'],
